@@ -26,7 +26,8 @@ EXPECTED_PROBES = [
     "opt.utc", "opt.calendar", "opt.ref", "env.ref", "env.cal",
     "opt.print_format", "neg_offset_unescaped", "neg_offset_escaped",
     "leak_check_after_non_gregorian", "now_across_transition", "stdin",
-    "zoneless_local", "refusal_expected", "nominal_offset", "hour24"]
+    "zoneless_local", "refusal_expected", "nominal_offset", "hour24",
+    "entered_via_sys_argv"]
 
 
 # --------------------------------------------------------------------------
@@ -345,7 +346,10 @@ def gen_invocation(rng, world_state):
     utc = rng.random() < 0.3
     kind = rng.choices(["point", "diff", "total", "rec", "bad", "version"],
                        [40, 18, 7, 15, 18, 2])[0]
-    step = {"k": "inv", "env": env, "stdin": None}
+    # how the process is entered: main(argv) as a library call, or the way
+    # the console script and `python -m` do it (sys.argv, main())
+    step = {"k": "inv", "env": env, "stdin": None,
+            "entry": rng.choice(["argv", "sys.argv", "sys.argv"])}
     if kind == "version":
         step["spec"] = {"kind": "version"}
         step["argv"] = [rng.choice(["--version", "-V"])]
@@ -646,6 +650,7 @@ def point_step(rng, notation, mode, cal_opt, env_cal, utc, offsets):
     og, flags = spell_offsets(rng, offsets)
     spec["flags"] = flags
     step = {"k": "inv", "env": {"cal": env_cal, "ref": None}, "stdin": None,
+            "entry": rng.choice(["argv", "sys.argv"]),
             "spec": spec, "argv": assemble(rng, [spec["text"]], groups + og)}
     return step
 
@@ -894,7 +899,10 @@ class Sim(object):
         before = self.facade.config()
         self.facade.begin_op(step.get("inop", ()))
         with kernel.guarded():
-            status, out, err = world.run_cli(argv, step.get("stdin") or "")
+            status, out, err = world.run_cli(
+                argv, step.get("stdin") or "", step.get("entry", "argv"))
+        if step.get("entry") == "sys.argv":
+            self.count("probe.entered_via_sys_argv")
         served = [v for nme, v, _ in self.facade.log if nme == "time"]
         if self.facade.fired:
             self.count("fault.inop_transition")
